@@ -806,6 +806,10 @@ def rule_E4(ctx):
                     and isinstance(t.comparators[0], ast.Constant) and t.comparators[0].value in (0, 1)) or ast.unparse(t) == 'not length'
         g = G.find_guard(f, pred, exc={'CreationError', 'ValueError'})
         none_ok = g is not None and any(ast.unparse(d) in ('length is None', 'not length') for d in G.disjuncts(g.test))
+        if g is not None and not none_ok:
+            # the two rejections as two guards: `if length is None: raise` and `if length == 0: raise`
+            g2 = G.find_guard(f, lambda t: ast.unparse(t) in ('length is None', 'not length'), exc={'CreationError', 'ValueError'})
+            none_ok = g2 is not None
         if g is None or not none_ok:
             r.fail(f.key, 'length is None or length == 0 guard', f"setter of '{e['name']}' does not reject a missing or zero length as its "
                    'siblings do', loc=f.loc(), extra={'props': ['C15']})
